@@ -125,7 +125,7 @@ def axiom_audit(prop_id):
     bad = []
     seen = 0
     # output: "'name' depends on axioms: [a, b]" or "'name' does not depend on any axioms"
-    for m in re.finditer(r"'([^']+)' (does not depend on any axioms|depends on axioms: \[([^\]]*)\])", out.replace("\n", " ")):
+    for m in re.finditer(r"'(\S+?)' (does not depend on any axioms|depends on axioms: \[([^\]]*)\])", out.replace("\n", " ")):
         seen += 1
         if m.group(3):
             ax = {a.strip() for a in m.group(3).split(",") if a.strip()}
